@@ -421,7 +421,7 @@ for wi, nm in enumerate(ITERS):
         # (N, len, cut, j)
         q = [(4, 4, 0, 1), (2, 2, 1, 1), (2, 0, 0, 0)] if op != "nth" else [(4, 4, 0, 1), (3, 3, 1, 1), (2, 2, 0, 2), (2, 0, 0, 0)]
         if op in ("fold", "last"):
-            q = q + [(9, 9, 0, 1)]  # beyond every 4x/8x unrolling threshold of an overriding fold/last
+            q = q + [(6, 6, 0, 1)]  # more than one round of a 4x-unrolled overriding fold/last (the harness buffers hold 7 items)
         th = q + [(4, 4, 0, 3), (4, 3, 1, 0), (3, 3, 3, 0), (1, 1, 0, 0)]
         add("drv_%s_%s" % (nm, op), "derived::h_derived::<{N}>(%d, %d, {A}, {B}, {C})" % (wi, oi), P,
             [{"N": n, "A": a, "B": b, "C": c} for n, a, b, c in q], [{"N": n, "A": a, "B": b, "C": c} for n, a, b, c in th],
